@@ -45,6 +45,22 @@ let () =
         let parts = Stdlib.List.map parse_part ps in
         Printf.printf "X %d %s\n" (int_of_z (complex_sev (z_of_int (int_of_string own)) parts))
           (String.concat "" (Stdlib.List.map (fun p -> if part_counts p then "1" else "0") parts))
+      | "XN" :: own :: ps ->
+        (* XN <own severity> <entity number>=<sev>:<attr sev><d|e>,... ...   -> complex_sev_named (a part met twice adds a WARNING) *)
+        let parse_named w =
+          (match String.index_opt w '=' with
+           | Some k ->
+             let nm = Conv.n_of_int (int_of_string (String.sub w 0 k)) in
+             let rest = String.sub w (k + 1) (String.length w - k - 1) in
+             (match String.split_on_char ':' rest with
+              | sv :: r ->
+                let al = (match r with a :: _ when a <> "" -> String.split_on_char ',' a | _ -> []) in
+                (nm, (z_of_int (int_of_string sv),
+                      Stdlib.List.map (fun a -> let n = String.length a in
+                                        (z_of_int (int_of_string (String.sub a 0 (n - 1))), a.[n - 1] = 'd')) al))
+              | [] -> (nm, (z_of_int 3, [])))
+           | None -> failwith "bad part") in
+        Printf.printf "XN %d\n" (int_of_z (complex_sev_named (z_of_int (int_of_string own)) (Stdlib.List.map parse_named ps)))
       | "R" :: flags :: k :: _ ->
         (* R <flags: one of 0|1 per attribute, 1 = redefining> <k>  -> severity of a record with k good parameters *)
         let attrs = Stdlib.List.init (String.length flags) (fun i -> flags.[i] = '1') in
